@@ -27,6 +27,9 @@ def check(run):
     mid = len(cases) // 2
     run.samples = [c["abs"] for c in cases[mid:mid + 2]]
     loadfam.replay_load(run, cases, "Trace_Config", "Trace_Config.cfg", key_of=_key, tag="_json", trace_env={"EXT": "json"})
+    # the build-script API on the same projects
+    loadfam.replay_load(run, cases, "Trace_Config", "Trace_Config.cfg", package="drv_build", key_of=lambda c, r: "build-api;" + _key(c, r), tag="_build",
+                        per_case_timeout=60, trace_env={"EXT": "json"})
     # the other readers: which file is opened depends on the extensions the build knows (.yaml before .yml; .json5)
     variants = [("yaml", "yaml", "yaml")] if run.tier == "quick" else [("yaml", "yaml", "yaml"), ("yaml", "yaml", "yml"), ("json5", "json5", "json5")]
     for feat, fmt, ext in variants:
